@@ -125,9 +125,7 @@ def run(prog, ctx):
             ok = flag in guards
             if not ok and fi.is_static is False:
                 # private helper reached only from methods that assert the state
-                callers = [f2 for f2 in cs.methods.values() if any(
-                    isinstance(c.func, ast.Attribute) and c.func.attr in (name, "_CombiScheme" + name) for c in R.calls_in(f2.node))]
-                ok = bool(callers) and all(_asserts_state(f2, name) for f2 in callers)
+                ok = _reached_in_state(cs, name, set())
             ctx.check(ok, "C01.D1b", R.key_of(fi, "lmin-read#%d" % k), fi.loc(rd),
                       "self.lmin is read only in the initialised-adaptive state",
                       "self.lmin is read in %s without a dominating `assert self.initialized_adaptive` (the class-level default could be observed)" % fi.name)
@@ -170,9 +168,9 @@ def run(prog, ctx):
                   "the move happens only if the requested index is active (non-refinable requests change nothing)",
                   "the move of %s is not guarded by membership of that same tuple in the active set" % (show(t) if t else "?"))
     # all dimensions are tried
-    loops = [l for l in walk_local(upd.node) if isinstance(l, ast.For)]
-    ok = any(tmu.term(l.iter) == ("call", ("n", "range"), (("a", ("n", upd.self_name), "dim"),), ()) and
-             any(isinstance(c.func, ast.Attribute) and "refine_scheme" in c.func.attr for c in R.calls_in(l)) for l in loops)
+    ok = any(tmu.term(it) == ("call", ("n", "range"), (("a", ("n", upd.self_name), "dim"),), ()) and
+             any(isinstance(c.func, ast.Attribute) and "refine_scheme" in c.func.attr for b_ in body for c in R.calls_in(b_))
+             for (it, _tg, body, _n) in R.iterations(upd.node))
     ctx.check(ok, "C01.D2", R.key_of(upd, "all-forward-neighbours"), upd.loc(),
               "a forward neighbour is tried in every dimension", "update_adaptive_combi does not try the forward neighbour of every dimension range(self.dim)")
 
@@ -337,13 +335,14 @@ def _check_simplex_enumeration(prog, ctx, cs):
         fi = cs.methods[name]
         ctx.touch(fi)
         tmf = Terms(fi.node, max_depth=0)
+        tmdeep = Terms(fi.node)
         lminp = "lmin"
         sub = ("op", "Sub", (("n", lminp), ("c", "1")))
         calls = [x for x in ast.walk(fi.node) if isinstance(x, ast.Call) and isinstance(x.func, ast.Attribute) and x.func.attr == "getGrids"]
         shift_ok = False
         for n in ast.walk(fi.node):
             if isinstance(n, (ast.ListComp, ast.Call)):
-                t = tmf.term(n)
+                t = tmdeep.term(n)                     # temporaries such as `offset = lmin - 1` are looked through
                 # element-wise  l + (lmin - 1)   or  np.array(g) + ones * (lmin - 1)
                 for x in subterms(t):
                     if x[0] == "op" and x[1] == "Add" and any(y == sub for y in x[2]):
@@ -396,6 +395,24 @@ def norm_eq(a, b):
     return norm_cmp("Eq", a, b)
 
 
+def _reached_in_state(cs, name, seen):
+    """Every call of method `name` inside the class happens in the initialised-adaptive state: the call site is dominated by the
+    assertion, or the calling method is itself only reached in that state (transitively)."""
+    if name in seen:
+        return True
+    seen = seen | {name}
+    callers = [f2 for f2 in cs.methods.values() if any(
+        isinstance(c.func, ast.Attribute) and c.func.attr in (name, "_CombiScheme" + name) for c in R.calls_in(f2.node))]
+    if not callers:
+        return False
+    for f2 in callers:
+        if _asserts_state(f2, name):
+            continue
+        if f2.name in INITIALISERS or not _reached_in_state(cs, f2.name, seen):
+            return False
+    return True
+
+
 def _asserts_state(fi, callee_name):
     c = cfg_of(fi)
     tm = terms_of(fi)
@@ -408,12 +425,21 @@ def _asserts_state(fi, callee_name):
     return True
 
 
+def _subst(t, old, new):
+    if t == old:
+        return new
+    if isinstance(t, tuple):
+        return tuple(_subst(x, old, new) for x in t)
+    return t
+
+
 def _admissible_before(fi, target, base):
     """Is the CFG node `target` of function `fi` dominated by the completion of a loop over all dimensions that rejects (falsy
     return) unless the backward neighbour of the vector `base` in the loop dimension is in the OLD set or below lmin?
     Returns (ok, detail)."""
     c = cfg_of(fi)
     tm = Terms(fi.node, max_depth=0)
+    tmd = Terms(fi.node)
     loops = [n for n in c.nodes if n.kind == "for" and c.edge_dominates(n, False, target)]
     detail = "no loop over all dimensions whose completion dominates the activation"
     for ln in loops:
@@ -428,7 +454,7 @@ def _admissible_before(fi, target, base):
         for st in loop.body:
             if isinstance(st, ast.Assign) and isinstance(st.targets[0], ast.Subscript) and isinstance(st.targets[0].value, ast.Name) \
                     and isinstance(st.targets[0].slice, ast.Name) and st.targets[0].slice.id == k:
-                v = tm.term(st.value)
+                v = R.resolve_locals(fi, tm.term(st.value), c.node_of(st), tm)      # looks through `lower = vec[k] - 1`
                 if base is not None and v == ("op", "Sub", (("s", ("n", base), ("n", k)), ("c", "1"))):
                     copy_name = st.targets[0].value.id
             if isinstance(st, ast.AugAssign) and isinstance(st.op, ast.Sub) and isinstance(st.target, ast.Subscript) \
@@ -457,10 +483,15 @@ def _admissible_before(fi, target, base):
             detail = "the neighbour loop never rejects (no falsy return inside it)"
             continue
         conds = set()
+        back = ("op", "Sub", (("s", ("n", base), ("n", k)), ("c", "1")))
         for ex in exits:
             for (g, gn) in R.dominating_guards(fi, ex, tm):
                 if gn.kind == "test" and c.in_loop(gn, loop):
-                    conds.add(g)
+                    g2 = R.resolve_locals(fi, g, gn, tm)
+                    # the decremented component may be spelt as the neighbour's entry or as (vector entry - 1)
+                    g2 = _subst(g2, back, ("s", ("n", copy_name), ("n", k)))
+                    g2 = _subst(g2, ("copy", "tuple", ("copy", "list", ("n", base))), ("copy", "tuple", ("n", copy_name)))
+                    conds.add(g2)
         copy_t = ("copy", "tuple", ("n", copy_name))
         old = ("a", ("n", fi.self_name), "old_index_set")
         lm = ("a", ("n", fi.self_name), "lmin")
@@ -511,6 +542,79 @@ def _check_admissibility(prog, ctx, fi, ad):
               "`%s` can activate an inadmissible index: %s" % (src(ad), detail))
 
 
+def _literal_set(node):
+    if isinstance(node, (ast.List, ast.Tuple)) and node.elts and \
+            all(isinstance(e, ast.Constant) or (isinstance(e, ast.UnaryOp) and isinstance(e.operand, ast.Constant)) for e in node.elts):
+        try:
+            return frozenset(ast.literal_eval(e) for e in node.elts)
+        except Exception:                      # noqa: BLE001
+            return None
+    return None
+
+
+def _stencil_cases(prog, fi, depth=0):
+    """([(values, guard terms, dimension variable, ranges over all dimensions, ast node, function, shown)], names of the stencil lists in
+    `fi`, expression nodes in `fi` that ARE the stencil list)"""
+    from ..terms import negate
+    tm = Terms(fi.node, max_depth=0)
+    dimr = ("call", ("n", "range"), (("a", ("n", fi.self_name), "dim"),), ())
+    cases, names, where = [], set(), []
+    # (a) loop with appends of literal lists
+    for ap in R.calls_in(fi.node, method="append"):
+        if not (isinstance(ap.func.value, ast.Name) and ap.args):
+            continue
+        vals = _literal_set(ap.args[0])
+        if vals is None:
+            continue
+        loops = R.enclosing_loops(ap)
+        dvar = loops[-1].target.id if loops and isinstance(loops[-1], ast.For) and isinstance(loops[-1].target, ast.Name) else None
+        full = bool(loops) and tm.term(loops[-1].iter) == dimr
+        guards = [g for (g, gn) in R.dominating_guards(fi, R.cfg_node(fi, ap), tm) if gn.kind == "test"]
+        cases.append((vals, guards, dvar, full, ap, fi, src(ap.args[0])))
+        names.add(ap.func.value.id)
+    # (b) comprehension over the dimensions whose element is a literal list or a conditional between literal lists
+    for comp in [x for x in ast.walk(fi.node) if isinstance(x, ast.ListComp) and len(x.generators) == 1 and not x.generators[0].ifs]:
+        g = comp.generators[0]
+        if not isinstance(g.target, ast.Name):
+            continue
+        arms = []
+        def collect(e, conds):
+            if isinstance(e, ast.IfExp):
+                t = tm.term(e.test)
+                collect(e.body, conds + [t])
+                collect(e.orelse, conds + [negate(t)])
+            else:
+                arms.append((e, conds))
+        collect(comp.elt, [])
+        if not arms or any(_literal_set(e) is None for (e, _c) in arms):
+            continue
+        full = tm.term(g.iter) == dimr
+        for (e, conds) in arms:
+            cases.append((_literal_set(e), conds, g.target.id, full, e, fi, src(e)))
+        par = getattr(comp, "_parent", None)
+        if isinstance(par, ast.Assign) and isinstance(par.targets[0], ast.Name):
+            names.add(par.targets[0].id)
+        else:
+            where.append(comp)
+    # (c) built by a private helper of the same class:  stencils = self.helper(levelvec)
+    if not cases and depth == 0 and fi.cls is not None:
+        for call in R.calls_in(fi.node):
+            if isinstance(call.func, ast.Attribute) and isinstance(call.func.value, ast.Name) and call.func.value.id == fi.self_name:
+                helper = prog.lookup_method(fi.cls, call.func.attr) or prog.lookup_method(fi.cls, "_%s%s" % (fi.cls.name, call.func.attr))
+                if helper is None or helper is fi:
+                    continue
+                sub, _n, _w = _stencil_cases(prog, helper, depth + 1)
+                if sub:
+                    cases = sub
+                    par = getattr(call, "_parent", None)
+                    if isinstance(par, ast.Assign) and isinstance(par.targets[0], ast.Name):
+                        names.add(par.targets[0].id)
+                    else:
+                        where.append(call)
+                    break
+    return cases, names, where
+
+
 def _check_stencil(prog, ctx, gc):
     tm = Terms(gc.node, max_depth=0)
     c = cfg_of(gc)
@@ -525,8 +629,17 @@ def _check_stencil(prog, ctx, gc):
             if isinstance(tg, ast.Subscript) and isinstance(tg.value, ast.Name) and tg.value.id in fresh_dicts:
                 stores.append(st)
     ctx.floor("C01.D4", len(stores), 1, "stores into the coefficient dictionary")
+    contribs = []
     for k, st in enumerate(stores):
         v = st.value
+        tg_ = st.targets[0] if isinstance(st, ast.Assign) else st.target
+        # `D[k] = D.get(k, 0) + c`: the contribution is c
+        if isinstance(st, ast.Assign) and isinstance(v, ast.BinOp) and isinstance(v.op, ast.Add):
+            for a_, b_ in ((v.left, v.right), (v.right, v.left)):
+                if isinstance(a_, ast.Call) and isinstance(a_.func, ast.Attribute) and a_.func.attr == "get" and ast.dump(a_.func.value) == ast.dump(tg_.value) \
+                        and len(a_.args) == 2 and ast.dump(a_.args[0]) == ast.dump(tg_.slice) and isinstance(a_.args[1], ast.Constant) and a_.args[1].value == 0:
+                    v = b_
+        contribs.append(v)
         if isinstance(v, ast.Name):
             b = R.reaching_unique_def(gc, v.id, v)
             vexpr = b.value if b is not None and b.kind == "assign" else None
@@ -560,7 +673,7 @@ def _check_stencil(prog, ctx, gc):
         tg = st.targets[0] if isinstance(st, ast.Assign) else st.target
         kt = Terms(gc.node).term(tg.slice)
     # both stores (update / first insert) use the same value
-    vals = {src(s.value) for s in stores}
+    vals = {src(v_) for v_ in contribs}
     ctx.check(len(vals) == 1, "C01.D4", R.key_of(gc, "same-contribution"), gc.loc(),
               "first insertion and update use the same contribution", "first insertion and update of a coefficient use different contributions: %s" % sorted(vals))
     # the target index is grid_levelvec + s (element-wise)
@@ -573,33 +686,26 @@ def _check_stencil(prog, ctx, gc):
             bk = R.reaching_unique_def(gc, tg.slice.id, tg.slice)
             if bk is not None and bk.kind == "assign":
                 kt = tmf.term(bk.value)
+        add01 = ("op", "Add", tuple(sorted((("bv", "$0"), ("bv", "$1")), key=repr)))
         for x in subterms(kt):
-            if x[0] == "lambda" and x[1] == 2 and x[2] == ("op", "Add", tuple(sorted((("bv", "$0"), ("bv", "$1")), key=repr))):
-                key_ok = True
+            if x[0] == "lambda" and x[1] == 2 and x[2] == add01:
+                key_ok = True                                     # map(lambda x, y: x + y, index, stencil)
+            if x[0] == "comp" and x[2] == add01 and len(x[3]) == 1 and x[3][0][0] == ("tuple", ("bv", "$0"), ("bv", "$1")) \
+                    and x[3][0][1][0] == "call" and x[3][0][1][1] == ("n", "zip") and len(x[3][0][1][2]) == 2 and not x[3][0][2]:
+                key_ok = True                                     # (x + y for x, y in zip(index, stencil))
+            if x[0] == "op" and x[1] == "Add" and len(x[2]) == 2 and all(y[0] == "call" and y[1] in (("a", ("n", "np"), "array"), ("a", ("n", "np"), "asarray")) for y in x[2]):
+                key_ok = True                                     # np.array(index) + np.array(stencil)
     ctx.check(key_ok, "C01.D4", R.key_of(gc, "target-index"), gc.loc(), "the contribution goes to index + stencil element (element-wise sum)",
               "the coefficient is not stored at grid_levelvec + stencil element")
 
-    # D5: truncated stencil
-    # role of the stencil list: the local list that literal lists of constants are appended to
-    appends = [x for x in R.calls_in(gc.node, method="append") if isinstance(x.func.value, ast.Name) and x.args
-               and isinstance(x.args[0], (ast.List, ast.Tuple)) and x.args[0].elts
-               and all(isinstance(e, ast.Constant) or (isinstance(e, ast.UnaryOp) and isinstance(e.operand, ast.Constant)) for e in x.args[0].elts)]
-    ctx.floor("C01.D5", len(appends), 2, "stencil appends")
+    # D5: truncated stencil.  The per-dimension stencils may be built by a loop with appends, by a (conditional) comprehension, or
+    # in a private helper of the class that get_coefficients_to_index_set calls; _stencil_cases finds (values, condition) pairs
     lm = ("a", ("n", gc.self_name), "lmin")
-    okcount = 0
-    for ap in appends:
-        an = R.cfg_node(gc, ap)
-        lst = ap.args[0] if ap.args else None
-        vals = None
-        if isinstance(lst, (ast.List, ast.Tuple)) and all(isinstance(e, (ast.Constant, ast.UnaryOp)) for e in lst.elts):
-            try:
-                vals = frozenset(ast.literal_eval(e) for e in lst.elts)
-            except Exception:
-                vals = None
-        loops = R.enclosing_loops(ap)
-        dvar = loops[-1].target.id if loops and isinstance(loops[-1], ast.For) and isinstance(loops[-1].target, ast.Name) else None
-        full_range = bool(loops) and tm.term(loops[-1].iter) == ("call", ("n", "range"), (("a", ("n", gc.self_name), "dim"),), ())
-        guards = [g for (g, gn) in R.dominating_guards(gc, an, tm) if gn.kind == "test"]
+    cases, stencil_lists, where = _stencil_cases(prog, gc)
+    if not cases:
+        ctx.violation("C01.D5", R.key_of(gc, "stencil:missing"), gc.loc(),
+                      "no per-dimension stencil ({0} at the minimum level, {0, -1} above it) is built for the coefficient computation")
+    for (vals, guards, dvar, full_range, loc_ast, wf, shown) in cases:
         lv = None
         for g in guards:
             if g[0] == "cmp" and g[1] in ("Lt", "LtE") and (g[2] == lm or g[3] == lm):
@@ -607,7 +713,6 @@ def _check_stencil(prog, ctx, gc):
         ok = False
         why = "guards %s" % [show(g) for g in guards]
         if vals == frozenset({0}):
-            # must hold under  level[d] <= lmin
             ok = lv is not None and lv[1] == "LtE" and lv[3] == lm and lv[2][0] == "s" and lv[2][2] == ("n", dvar)
             need = "level <= self.lmin"
         elif vals == frozenset({0, -1}):
@@ -616,15 +721,15 @@ def _check_stencil(prog, ctx, gc):
         else:
             need = "a stencil {0} or {0,-1}"
         ok = ok and full_range
-        if ok:
-            okcount += 1
-        ctx.check(ok, "C01.D5", R.key_of(gc, "stencil:%s" % (sorted(vals) if vals is not None else src(lst))), gc.loc(ap),
+        ctx.check(ok, "C01.D5", R.key_of(gc, "stencil:%s" % (sorted(vals) if vals is not None else shown)), wf.loc(loc_ast),
                   "stencil %s is used exactly when %s, for every dimension" % (sorted(vals) if vals else None, need),
-                  "stencil %s is appended under %s (required: %s, in a loop over range(self.dim))"
-                  % (sorted(vals) if vals is not None else src(lst), why, need))
+                  "stencil %s is used under %s (required: %s, for every dimension in range(self.dim))"
+                  % (sorted(vals) if vals is not None else shown, why, need))
+    if cases and {c_[0] for c_ in cases} != {frozenset({0}), frozenset({0, -1})}:
+        ctx.violation("C01.D5", R.key_of(gc, "stencil:both-cases"), gc.loc(),
+                      "the stencil cases found are %s; required exactly {0} (at the minimum level) and {0, -1} (above it)" % sorted(sorted(c_[0]) if c_[0] else [] for c_ in cases))
     cp = [x for x in R.calls_in(gc.node, func="get_cross_product")]
-    stencil_lists = {x.func.value.id for x in appends}
-    ok = any(x.args and isinstance(x.args[0], ast.Name) and x.args[0].id in stencil_lists for x in cp)
+    ok = any(x.args and ((isinstance(x.args[0], ast.Name) and x.args[0].id in stencil_lists) or any(x.args[0] is w for w in where)) for x in cp)
     ctx.check(ok, "C01.D5", R.key_of(gc, "cross-product"), gc.loc(), "stencil elements are the cross product of the per-dimension stencils",
               "the stencil elements are no longer get_cross_product(stencils)")
     # all of index_set is visited
@@ -635,20 +740,32 @@ def _check_stencil(prog, ctx, gc):
     # D6: returned grids
     cons = [x for x in R.calls_in(gc.node, func="ComponentGridInfo")]
     ctx.floor("C01.D6", len(cons), 1, "ComponentGridInfo constructions")
+    coeff_dicts = {(st.targets[0] if isinstance(st, ast.Assign) else st.target).value.id for st in stores}
     for x in cons:
         kws = {k.arg: k.value for k in x.keywords}
         lv = kws.get("levelvector", x.args[0] if x.args else None)
         co = kws.get("coefficient", x.args[1] if len(x.args) > 1 else None)
         loops = R.enclosing_loops(x)
         ok = False
+        # the iteration that produces (key, value): a for loop over D.items() or a comprehension generator over D.items()
+        a = b = None
+        it = None
+        filt = []
         if loops and isinstance(loops[-1], ast.For) and isinstance(loops[-1].target, ast.Tuple) and len(loops[-1].target.elts) == 2:
             a, b = loops[-1].target.elts
             it = tm.term(loops[-1].iter)
-            coeff_dicts = {(st.targets[0] if isinstance(st, ast.Assign) else st.target).value.id for st in stores}
+            filt = [g for (g, gn) in R.dominating_guards(gc, R.cfg_node(gc, x), tm) if gn.kind == "test"]
+        else:
+            par = getattr(x, "_parent", None)
+            if isinstance(par, (ast.GeneratorExp, ast.ListComp)) and par.elt is x and len(par.generators) == 1 \
+                    and isinstance(par.generators[0].target, ast.Tuple) and len(par.generators[0].target.elts) == 2:
+                a, b = par.generators[0].target.elts
+                it = tm.term(par.generators[0].iter)
+                filt = [tm.term(f_) for f_ in par.generators[0].ifs]
+        if a is not None:
             ok = any(it == ("call", ("a", ("n", nm), "items"), (), ()) for nm in coeff_dicts) and isinstance(lv, ast.Name) and isinstance(co, ast.Name) \
                 and isinstance(a, ast.Name) and isinstance(b, ast.Name) and lv.id == a.id and co.id == b.id
-            guards = [g for (g, gn) in R.dominating_guards(gc, R.cfg_node(gc, x), tm) if gn.kind == "test"]
-            ok = ok and guards == [("cmp", "NotEq", ("c", "0"), ("n", b.id))] or ok and guards == [("cmp", "NotEq", ("n", b.id), ("c", "0"))]
+            ok = ok and filt in ([("cmp", "NotEq", ("c", "0"), ("n", b.id))], [("cmp", "NotEq", ("n", b.id), ("c", "0"))])
         ctx.check(ok, "C01.D6", R.key_of(gc, "returned-grid"), gc.loc(x),
                   "each returned grid pairs a level vector with its own coefficient; only zero coefficients are dropped",
                   "`%s` does not pair each dictionary key with its own value under the single filter coefficient != 0" % src(x))
